@@ -251,6 +251,9 @@ func (f *file) Write(p []byte) (n int, err error) {
 }
 
 func (f *file) WriteBlob(p blob.Blob) (n int, err error) {
+	if f.flag&hackpadfs.FlagAppend != 0 && p.Len() > 0 {
+		f.offset = int64(f.Size()) // O_APPEND: the write happens at, and moves the offset from, the current end
+	}
 	n, err = f.writeBlobAt("write", p, f.offset)
 	f.offset += int64(n)
 	return
